@@ -199,6 +199,24 @@ func (f *File) splitWrite(kind string, b []byte, off int64) (int, error) {
 		}
 		return f.f.WriteAt(part, at)
 	}
+	if ft := injected(idx, kind, p, "", b); ft != nil {
+		// injected I/O error: a short write of ft.Partial bytes, then the error
+		k := ft.Partial
+		if k < 0 {
+			k = 0
+		}
+		if k > len(b) {
+			k = len(b)
+		}
+		n := 0
+		if k > 0 {
+			var werr error
+			if n, werr = write(b[:k], off); werr != nil {
+				return n, werr
+			}
+		}
+		return n, faultError(kind, p, "", ft.Err)
+	}
 	if len(b) < 2 {
 		return write(b, off)
 	}
@@ -254,6 +272,12 @@ func (f *File) Close() error {
 	if !ok {
 		f.f.Close()
 		return ErrStopped
+	}
+	if ft := injected(idx, "close", curPath(f), "", nil); ft != nil {
+		// like close(2) reporting EIO: the descriptor is released all the same
+		f.f.Close()
+		finish(idx)
+		return faultError("close", curPath(f), "", ft.Err)
 	}
 	err := f.f.Close()
 	finish(idx)
